@@ -60,7 +60,9 @@ Ltac wf_tac :=
                          NativeScripts WsNativeScripts PlutusList WsPlutusList RedeemersMap RedeemersArr Redeemers
                          GeneralTransactionMetadata AuxiliaryData DataOption ScriptRef
                          TransactionOutputMap TransactionOutput TransactionOutputs AddressS RewardAddressS TransactionBody
-                         TransactionWitnessSet Transaction Block not_major7 first_major may_start7 has_disc];
+                         TransactionWitnessSet Transaction Block BlockPraos MetadataList MetadataMap PlutusMap ConstrPlutusData Redeemer
+                         TransactionBodies TransactionWitnessSets TransactionUnspentOutput
+                         ScriptAll ScriptAny ScriptNOfK VersionedBlock not_major7 first_major may_start7 has_disc];
                     rewrite ?wf_NativeScript, ?wf_Metadatum, ?wf_PlutusData,
                             ?fm_NativeScript, ?fm_Metadatum, ?fm_PlutusData,
                             ?ms7_NativeScript, ?ms7_Metadatum, ?ms7_PlutusData));
@@ -74,3 +76,22 @@ Lemma wf_Transaction d : wfs (Transaction d) = true.  Proof. wf_tac. Qed.
 
 Theorem ledger_schemas_wf d : Forall (fun s => wfs s = true) (ledger_schemas d).
 Proof. unfold ledger_schemas. repeat (constructor; [wf_tac|]). constructor. Qed.
+
+Lemma wf_ConstrPlutusData d : wfs (ConstrPlutusData d) = true.
+Proof.
+  assert (Hf : wfs (SArrAny (PlutusData d)) = true) by (cbn [wfs]; rewrite wf_PlutusData, ms7_PlutusData; reflexivity).
+  unfold ConstrPlutusData. cbn [wfs].
+  rewrite wfs_cl_tag_run; [reflexivity|exact Hf|unfold two64; cbn; lia| |].
+  - intros t Ht. rewrite disc_fresh_tag_run.
+    cbn [cl disc_fresh]. cbn in Ht.
+    destruct (1280 <=? t) eqn:E1; [lia|]. destruct (t =? 102) eqn:E2; [lia|]. reflexivity.
+  - apply wfs_cl_tag_run; [exact Hf|unfold two64; cbn; lia| |].
+    + intros t Ht. cbn [cl disc_fresh]. cbn in Ht. destruct (t =? 102) eqn:E2; [lia|]. reflexivity.
+    + cbn [cl wfs_cl arr sl wfs wfs_sl]. rewrite wf_PlutusData, ms7_PlutusData. reflexivity.
+Qed.
+
+Theorem ledger_schemas_more_wf d : Forall (fun s => wfs s = true) (ledger_schemas_more d).
+Proof.
+  unfold ledger_schemas_more.
+  repeat (constructor; [first [apply wf_ConstrPlutusData | wf_tac]|]). constructor.
+Qed.
